@@ -2,6 +2,7 @@ package props
 
 import (
 	"fmt"
+	"sort"
 	"strings"
 
 	"golang.org/x/tools/go/ssa"
@@ -73,6 +74,63 @@ func confineNoReach(c *an.Ctx, cg *an.CG, rule string, roots, sinks []*ssa.Funct
 		}
 		c.Count("cha_only_reachable_pairs", n)
 	}
+}
+
+// entryCallers resolves a who-may-call question through private helpers: for a function fn it returns the
+// functions that ultimately decide to call it - a caller that is an unexported function or closure of the same
+// package as its own callers is looked through (up to four levels), because moving part of an allowed caller's body
+// into a private helper does not change who performs the call. A helper nobody calls is returned itself.
+func entryCallers(c *an.Ctx, cg *an.CG, fn *ssa.Function, allowed func(*ssa.Function) bool) map[*ssa.Function]ssa.CallInstruction {
+	out := map[*ssa.Function]ssa.CallInstruction{}
+	var up func(f *ssa.Function, site ssa.CallInstruction, depth int, seen map[*ssa.Function]bool)
+	up = func(f *ssa.Function, site ssa.CallInstruction, depth int, seen map[*ssa.Function]bool) {
+		for f.Parent() != nil {
+			f = f.Parent()
+		}
+		if seen[f] {
+			return
+		}
+		seen[f] = true
+		private := f.Object() != nil && !f.Object().Exported() && f.Name() != "init" && f.Name() != "main"
+		if !private || depth >= 4 || allowed(f) {
+			if _, ok := out[f]; !ok {
+				out[f] = site
+			}
+			return
+		}
+		n := 0
+		for _, e := range cg.Callers(f) {
+			g := e.Caller.Func
+			if !c.P.InRepo(g) || strings.HasSuffix(c.P.Fset.Position(g.Pos()).Filename, "_test.go") {
+				continue
+			}
+			n++
+			up(g, e.Site, depth+1, seen)
+		}
+		if n == 0 {
+			if _, ok := out[f]; !ok {
+				out[f] = site
+			}
+		}
+	}
+	for _, e := range cg.Callers(fn) {
+		g := e.Caller.Func
+		if !c.P.InRepo(g) || strings.HasSuffix(c.P.Fset.Position(g.Pos()).Filename, "_test.go") {
+			continue
+		}
+		// the direct caller counts when it is itself an entry (exported or uncalled); otherwise its callers do
+		up(g, e.Site, 0, map[*ssa.Function]bool{})
+	}
+	return out
+}
+
+func sortedFns(m map[*ssa.Function]ssa.CallInstruction) []*ssa.Function {
+	var fs []*ssa.Function
+	for f := range m {
+		fs = append(fs, f)
+	}
+	sort.Slice(fs, func(i, j int) bool { return fs[i].String() < fs[j].String() })
+	return fs
 }
 
 func clipPath(p []string) string {
